@@ -412,6 +412,12 @@ def csv_cases(ctx):
             vals = [[rng.choice([None, str(Fraction(rng.randint(-5000, 5000), rng.choice([1, 10, 100, 1000])))]) if rng.random() < 0.2
                      else str(Fraction(rng.randint(-5000, 5000), rng.choice([1, 10, 100, 1000]))) for _ in range(nrow)] for _ in range(3)]
             empty_col = rng.random() < 0.3
+            whole_first = rng.random() < 0.4 and nrow >= 2
+            if whole_first:
+                # a writer that drops meaningless decimals: the first row holds whole numbers only
+                for c in vals:
+                    c[0] = str(rng.randint(-50, 50))
+                vals[0][1] = str(Fraction(rng.randint(-5000, 5000) * 2 + 1, 10))
             path = os.path.join(base, "h%d.csv" % k)
             with open(path, "w") as fh:
                 fh.write("Time;a;b;c" + (";e" if empty_col else "") + "\n")
@@ -422,7 +428,7 @@ def csv_cases(ctx):
                             cells.append("nan")
                         else:
                             f = Fraction(c[i])
-                            txt = ("%d" % f) if f.denominator == 1 and rng.random() < 0.5 else ("%.3f" % float(f))
+                            txt = ("%d" % f) if f.denominator == 1 and (rng.random() < 0.5 or (whole_first and i == 0)) else ("%.3f" % float(f))
                             cells.append(txt.replace(".", ","))
                     fh.write(dts(3600 * i).strftime("%Y-%m-%d %H:%M:%S") + ";" + ";".join(cells) + (";" if empty_col else "") + "\n")
             has_comma = any("," in ln for ln in open(path).read().split("\n", 1)[1][:1024].split("\n"))
